@@ -994,6 +994,10 @@ func runC06(c *run.Ctx, s *kit.Summary) {
 			runE2E(c, s)
 			return
 		}
+		if strings.Contains(string(rec.Input), `"stream"`) {
+			runAttackStreams(c, s, kit.NewRng(c.Seed))
+			return
+		}
 		var in seqInput
 		if err := json.Unmarshal(rec.Input, &in); err != nil || len(in.Hits) == 0 {
 			var one hitCase
@@ -1109,6 +1113,9 @@ func runC06(c *run.Ctx, s *kit.Summary) {
 		}
 	}
 	gr.Diff(c.Driver, s)
+
+	// hits driven through Attacker.Attack by the library's stream targeters
+	runAttackStreams(c, s, r)
 
 	// the command's glue: real `vegeta attack` runs against a local server
 	runE2E(c, s)
